@@ -103,10 +103,13 @@ PROPS = {
         quick_checks=10000, thorough_checks=60000, thorough_timeout=7200,
         rule="a case = random DAG on 2-7 integer-keyed queries (each resolves its dependencies in generated groups of sequential/parallel "
              "Resolve calls and hashes key, versioned input and dependency values) x 1-3 concurrent clients each issuing 1-4 operations "
-             "from {Run(roots), Evict(keys), EvictWithCleanup(keys, bump their inputs)} x parallelism 1-4 x scheduler tape/disabled "
+             "from {Run(roots), Run(roots) whose context the scheduler cancels k decisions after it started (one case in three has such "
+             "Runs), Evict(keys), EvictWithCleanup(keys, bump their inputs)} x parallelism 1-4 x scheduler tape/disabled "
              "hooks; distinct = distinct (graph, histories, trace hash); non-trivial = the history contains at least one Run and one eviction",
         assumptions=_ASSUME_B + ["inputs change only inside the exclusive cleanup of EvictWithCleanup, for exactly the evicted keys (the documented usage)",
-                                 "an eviction reaches Executor.dirty.Lock only when no Run is active (a goroutine blocked on a mutex is invisible to synctest); TryLock probes inside Execute and cleanup check that the lock is really held"],
+                                 "an eviction reaches Executor.dirty.Lock only when no Run is active (a goroutine blocked on a mutex is invisible to synctest); TryLock probes inside Execute and cleanup check that the lock is really held",
+                                 "a cancelled Run may itself fail with the cancellation error; a query whose Execute propagated that error (or a dependency's) is recorded by the model as a 'poisoned' memo entry, and only for such an entry may another Run see the cancellation error instead of the value (the executor memoises what Execute returned); a result without an error must always be the right value",
+                                 "evictions that overlap the execution of a straggler of a cancelled Run (which runs after that Run dropped the shared lock) are not explored"],
     ),
     "C34": dict(
         test="TestC34", engine="B", level="fault_enumeration", components="incremental",
@@ -125,6 +128,7 @@ PROPS = {
              "{add a type, change a field type, rename a message, add an import (maybe unused/cyclic/missing), drop an import, break/"
              "repair syntax, add a file, delete a file, re-add a deleted file, toggle a transient open error, touch} each followed by "
              "evicting the changed paths' File queries and re-running queries.FDS on the long-lived executor (parallelism 1-4) under a "
+             "seeded schedule; one case in five adds a 'hub' shape (a workspace file importing 2-3 files that are not in the workspace and extend the same message with numbers from a pool of two); "
              "seeded schedule; oracle = brand-new executor and ir.Session on the same files after each step; distinct = distinct "
              "(workspace, history, trace hash); non-trivial = more than one step or a step whose batch result has diagnostics",
         assumptions=_ASSUME_B + ["diagnostics are compared as a multiset of individually rendered diagnostics; an order-only difference is reported under its own class"],
@@ -133,7 +137,7 @@ PROPS = {
         test="TestC36", engine="B", level="exploration", components="experimental", nondeterminism_is_violation=True,
         selftest_may_diverge="the outcome of cases whose workspace has an import cycle is itself nondeterministic in the code under test (known finding C36/diagnostics-differ-with-import-cycle), so such a case may stop after a different number of runs; the schedule of each individual run is reproducible",
         quick_checks=400, thorough_checks=6000, thorough_timeout=10800,
-        rule="a case = generated invalid workspace (0-12 reportable errors, warnings) x 2-4 runs of queries.FDS on brand-new or warm "
+        rule="a case = generated invalid workspace (0-12 reportable errors, warnings; one case in four with a 'hub' shape: a workspace file importing 2-3 import-only files whose extension numbers may clash) x 2-4 runs of queries.FDS on brand-new or warm "
              "executors with parallelism 1-4 under a seeded schedule (each fresh executor has fresh sync.Map hash seeds), compared with "
              "an unsimulated run; plus Report.Canonicalize applied to 3 seeded permutations of (a) the real diagnostics and (b) a "
              "synthetic list of 0-7 diagnostics drawn from small pools (ties, tagged duplicates, span-less diagnostics); distinct = "
